@@ -15,7 +15,7 @@ import common
 from common import slit
 
 PRE = ('From Coq Require Import ZArith QArith List Bool String.\n'
-       'Require Import WV.model.C06Cascade WV.model.C06Inherit WV.model.C06Values WV.model.C06Judge.\n'
+       'Require Import WV.model.C06Cascade WV.model.C06Inherit WV.model.C06Values WV.model.C06Imports WV.model.C06Judge.\n'
        'Import ListNotations.\nOpen Scope string_scope.\nOpen Scope Z_scope.\n')
 INF = float('inf')
 
@@ -441,7 +441,8 @@ def build_doc(doc):
         collect_imports(sh['items'])
         text = items_text(sh['items'])
         if sh['kind'] == 'ua':
-            ua_css += text
+            # @import must stand before the rules: sheets that import come before the base rules
+            ua_css = (text + '\n' + ua_css) if doc.get('ua_first') else (ua_css + text)
         elif sh['kind'] == 'user':
             user_css.append(text)
         elif sh['kind'] == 'style':
@@ -647,7 +648,8 @@ def reference(doc, case):
         for k in e['kids']:
             down(k, vals)
     down(doc['html'], None)
-    return dict(expected=expected, sheets=sheets_out, attrs=attrs_out, selfcheck=selfcheck, decided=decided)
+    return dict(expected=expected, sheets=sheets_out, attrs=attrs_out, selfcheck=selfcheck, decided=decided,
+                ordered=ordered, matcher=M)
 
 
 # ---------------------------------------------------------------------------------------------- Coq terms
@@ -700,11 +702,11 @@ def coq_tree_case(doc, ref, observed):
 
 # =============================================================================================== generators
 
-def gen_decls(rng, props, vid, k=None, imp_p=0.25):
+def gen_decls(rng, props, vid, k=None, imp_p=0.25, keywords=True):
     out = []
     for _ in range(k or rng.choice([1, 1, 2, 3])):
         p = rng.choice(props)
-        r = rng.random()
+        r = rng.random() if keywords else 1.0
         if r < 0.07:
             v, val = -1, 'inherit'
         elif r < 0.13:
@@ -896,6 +898,178 @@ def tuple_doc(kinds, target_tag, layout):
                 kinds=list(kinds), target=target_tag, layout=layout)
 
 
+# ---- @import DAGs: repeated URLs, diamonds, media lists, misplaced imports
+
+def gen_import_doc(rng):
+    html, els = gen_tree(rng, rng.choice([4, 5, 6, 7]))
+    props = [rng.choice(INH_PROPS)] + rng.sample(NON_PROPS, 2)
+    vid = [0]
+    pool = []
+    for _ in range(rng.choice([2, 3, 3])):
+        s = gen_selector(rng, [e for e in els if e['n'] >= 1])
+        s['pseudo'] = None
+        pool.append(s)
+
+    def rule(imp_p=0.12):
+        sels = [rng.choice(pool)] if rng.random() < 0.8 else [rng.choice(pool), rng.choice(pool)]
+        return dict(sels=sels, decls=gen_decls(rng, props, vid, k=rng.choice([1, 1, 2]), imp_p=imp_p, keywords=False))
+
+    def noise():
+        rr = rule()
+        rr['seltexts'] = [sel_text(rr['sels'][0]), 'p:bogus-class']
+        rr['invalid'] = True
+        return ('rule', rr)
+
+    def media():
+        return rng.choice([None, None, None, ['print'], ['screen'], ['all'], ['screen', 'print'], ['speech']])
+    nfiles = rng.randint(2, 5)
+    levels = sorted(rng.choice([1, 2, 2, 3, 3]) for _ in range(nfiles))
+    urls = ['http://mem/d%d.css' % i for i in range(nfiles)]
+    files = {}
+
+    def imports_from(cands, k):
+        """k import items among cands (with repetitions: the same URL before and after another one)"""
+        out = []
+        if not cands or k == 0:
+            return out
+        picks = [rng.choice(cands) for _ in range(k)]
+        if k >= 2 and rng.random() < 0.5:
+            picks[-1] = picks[0]                      # u ... u
+        for u in picks:
+            out.append(('import', u, media(), files[u]))
+        return out
+    for i in reversed(range(nfiles)):
+        deeper = [urls[j] for j in range(nfiles) if levels[j] > levels[i]]
+        items = []
+        if rng.random() < 0.12:
+            items.append(noise())                     # an ignored rule does not close the @import section
+        items += imports_from(deeper, rng.choice([0, 1, 1, 2, 3]))
+        for _ in range(rng.choice([1, 1, 2])):
+            if rng.random() < 0.12:
+                inner = [('rule', rule())]
+                if deeper and rng.random() < 0.4:
+                    u = rng.choice(deeper)
+                    inner.insert(0, ('import', u, None, files[u]))        # inside @media: ignored
+                items.append(('media', rng.choice([['print'], ['screen'], ['all']]), inner))
+            else:
+                items.append(('rule', rule()))
+        if deeper and rng.random() < 0.15:
+            u = rng.choice(deeper)
+            items.append(('import', u, None, files[u]))       # after a rule: ignored
+        files[urls[i]] = items
+    kinds = rng.choice([['style'], ['style', 'style'], ['style', 'link'], ['link', 'user'], ['ua', 'style'],
+                        ['user', 'style'], ['style', 'user', 'link'], ['ua', 'user', 'style', 'link']])
+    if 'ua' not in kinds:
+        kinds = ['ua'] + kinds
+    sheets = []
+    for kind in kinds:
+        if kind == 'ua' and rng.random() < 0.6:
+            sheets.append(dict(kind='ua', items=[]))
+            continue
+        items = []
+        if rng.random() < 0.08:
+            items.append(noise())
+        items += imports_from(urls, rng.choice([1, 2, 2, 3, 3, 4]))
+        for _ in range(rng.choice([0, 1, 1, 2])):
+            items.append(('rule', rule()))
+        if rng.random() < 0.1:
+            u = rng.choice(urls)
+            items.append(('import', u, None, files[u]))
+        sh = dict(kind=kind, items=items)
+        if kind in ('style', 'link') and rng.random() < 0.1:
+            sh['media'] = rng.choice([['print'], ['screen'], ['all']])
+        sheets.append(sh)
+    for e in els:
+        if rng.random() < 0.15:
+            e['style'] = gen_decls(rng, props, vid, k=1, imp_p=0.1, keywords=False)
+        e['before'] = False
+    return dict(html=html, els=els, sheets=sheets, props=props, device=rng.choice(['print', 'print', 'screen']),
+                hints=False, import_dag=True, ua_first=True, render=rng.random() < 0.3)
+
+
+def expected_fetches(doc, ref):
+    """the URLs in the order the text demands them: user sheets are built first (by the caller of render), then the
+    user-agent sheet, then the author sheets in document order; inside a sheet every honoured @import, depth first,
+    each time it is met"""
+    device = doc['device']
+    out = []
+
+    def walk(items, top=True):
+        seen_other = not top
+        for it in items:
+            if it[0] == 'import':
+                if seen_other or (it[2] and not media_applies(it[2], device)):
+                    continue
+                out.append(it[1])
+                walk(doc['files_items'][it[1]])
+            elif it[0] == 'rule':
+                if not it[1].get('invalid'):
+                    seen_other = True
+            elif it[0] == 'media':
+                seen_other = True
+                if media_applies(it[1], device):
+                    walk(it[2], False)
+    by_kind = lambda k: [s for s in doc['sheets'] if s['kind'] == k]
+    for s in by_kind('user'):
+        walk(s['items'])
+    for s in by_kind('ua'):
+        walk(s['items'])
+    li = 0
+    for s in doc['sheets']:
+        if s['kind'] == 'link':
+            li += 1
+            s['url'] = 'http://mem/l%d.css' % li
+    for origin, s in ref['ordered']:
+        if origin != 'author':
+            continue
+        if s['kind'] == 'link':
+            out.append(s['url'])
+        walk(s['items'])
+    return out
+
+
+def coq_import_case(doc, ref, e, obs_ids):
+    """the stylesheet texts seen from element e, for judge_imports"""
+    M = ref['matcher']
+    device = doc['device']
+    n = e['n']
+    tracked = [p for p in doc['props']]
+    url_id = {u: i + 1 for i, u in enumerate(sorted(doc['files_items']))}
+
+    def mq(types):
+        return '(evaluate_media_query [%s] %s)' % ('; '.join(slit(t) for t in (types or ['all'])), slit(device))
+
+    def item(it):
+        if it[0] == 'rule':
+            r = it[1]
+            ds = '[%s]' % '; '.join(rd_lit(d) for d in r['decls'] if d['prop'] in tracked)
+            if r.get('invalid'):
+                return '(IRule false [] %s)' % ds
+            sels = []
+            for text in [sel_text(x) for x in r['sels']]:
+                (spec, pseudo, ms), = M.info(text)
+                sels.append('(%s, %d, %s)' % (spec_lit(spec), 1 if pseudo == 'before' else 0 if pseudo is None else 2,
+                                              blit(n in ms)))
+            return '(IRule true [%s] %s)' % ('; '.join(sels), ds)
+        if it[0] == 'import':
+            return '(IImport %d %s)' % (url_id[it[1]], mq(it[2]))
+        if it[0] == 'media':
+            return '(IMedia %s [%s])' % (mq(it[1]), '; '.join(item(x) for x in it[2]))
+        raise ValueError(it[0])
+    files = '[%s]' % '; '.join('(%d, [%s])' % (url_id[u], '; '.join(item(x) for x in doc['files_items'][u]))
+                               for u in sorted(doc['files_items']))
+    origin_lit = {'ua': 'UA', 'user': 'User', 'author': 'Author'}
+    tops = '[%s]' % '; '.join('(%s, [%s])' % (origin_lit[o], '; '.join(item(x) for x in s['items']))
+                              for o, s in ref['ordered'])
+    attrs = []
+    for kind, ds in ref['attrs'][n]:
+        attrs.append('(%s, [%s])' % ('style_attr_spec' if kind == 'style' else 'hint_spec',
+                                      '; '.join(rd_lit(d) for d in ds if d['prop'] in tracked)))
+    obs = '[%s]' % '; '.join('(%d, %s)' % (PROPS[p]['pid'], zlit(v)) for p, v in zip(doc['props'], obs_ids)
+                             if not PROPS[p]['inh'])
+    return '(%s, %s, [%s], %s)' % (files, tops, '; '.join(attrs), obs)
+
+
 # =============================================================================================== judging
 
 def observe(doc, out, where):
@@ -955,6 +1129,7 @@ def run_cascade_stream(run, name, docs, thorough):
                  inherit_initial_keyword_wins=0)
     keys = []
     failures = 0
+    import_cases, import_kept = [], []
     for d, c, (st, o) in zip(docs, cases, outs):
         if st != 'ok':
             failures += 1
@@ -990,6 +1165,20 @@ def run_cascade_stream(run, name, docs, thorough):
         n_decided += len(obs) * len(d['props'])
         coq_cases.append(coq_tree_case(d, ref, obs))
         kept.append((d, c))
+        if d.get('import_dag'):
+            exp_fetch = expected_fetches(d, ref)
+            got_fetch = [u for u in o['fetched']]
+            stats['fetches'] = stats.get('fetches', 0) + len(got_fetch)
+            stats['repeated_fetches'] = stats.get('repeated_fetches', 0) + len(got_fetch) - len(set(got_fetch))
+            if exp_fetch != got_fetch:
+                run.fail('%s: the stylesheets are not fetched as the text orders: expected %s, the fetcher saw %s'
+                         % (name, [u.split('/')[-1] for u in exp_fetch], [u.split('/')[-1] for u in got_fetch]),
+                         {'stream': name, 'case': c, 'expected_fetches': exp_fetch, 'fetched': got_fetch,
+                          'doc': slim(d)}, signature='c06-import-fetch-sequence')
+            for e in d['els']:
+                if (e['n'], '') in obs:
+                    import_cases.append(coq_import_case(d, ref, e, obs[(e['n'], '')]))
+                    import_kept.append((d, c, e['n']))
         for e in d['els']:
             stats['style_attrs'] += bool(e['style'])
             stats['hint_attrs'] += bool(e['hints']) and d['hints']
@@ -1019,6 +1208,21 @@ def run_cascade_stream(run, name, docs, thorough):
                      {'stream': name, 'case': c, 'doc': slim(d)}, signature='c06-cascade-mismatch')
     except RuntimeError as exc:
         run.oblige('corr:%s' % name, False, str(exc))
+    if import_cases:
+        try:
+            masks = common.eval_cases('c06' + name.replace('-', '') + 'imp', PRE,
+                                      'icase', import_cases, 'judge_imports', per_file=100)
+            mism = [k for k, m in zip(import_kept, masks) if m & 1]
+            specbad = [k for k, m in zip(import_kept, masks) if m & 2]
+            run.oblige('corr:%s(Coq model of the @import walk + cascade vs styles)' % name, not mism,
+                       'first disagreement: element %s of %s' % (mism[0][2], json.dumps(mism[0][1])[:3000]) if mism else '')
+            for d, c, n in specbad[:2]:
+                run.fail('%s: element data-n=%s: the styles are not those of the textually flattened stylesheets '
+                         '(every @import substituted at its place, each time; Coq inline/text_rules/key_max)' % (name, n),
+                         {'stream': name, 'case': c, 'element': n, 'doc': slim(d)}, signature='c06-cascade-mismatch')
+            stats['import_cases'] = len(import_cases)
+        except RuntimeError as exc:
+            run.oblige('corr:%s(imports)' % name, False, str(exc))
     run.count(name, len(kept), keys, samples=[kept[0][1]['html'][:500]] if kept else [])
     run.stream_info(name, elements=n_el, decided_values=n_decided, discarded_docs=skipped, **stats)
     return kept
@@ -1720,6 +1924,16 @@ def check(run):
     lap('values-render')
     run_page_render(run, rng, thorough)
     lap('page-render')
+    idocs = [gen_import_doc(rng) for _ in range(1500 if thorough else 260)]
+    run_cascade_stream(run, 'import-dag', idocs, thorough)
+    lap('import-dag')
+    run.stream_info('import-dag', rule='2..5 served sheets forming an @import DAG of depth <= 3 (repeated URLs: u .. u in one '
+                    'sheet, diamonds, the same sheet through several chains), media lists on @import, @import after a '
+                    'rule / inside @media (ignored) / after an ignored rule (honoured), imported by UA, user, <style>, '
+                    '<link> sheets; a small selector pool so that origin, importance and specificity tie and the '
+                    'position of the LAST instance decides; every element judged against the textual-flattening '
+                    'reference (Python), the Coq walk model and the Coq substitution spec; the fetch sequence of the '
+                    'recording url_fetcher is compared with the text order')
     run.stream_info('cascade-tuples', kinds=len(KINDS),
                     rule='all ordered pairs (x 2 targets x 2 sheet layouts) and %s ordered triples of %d declaration '
                     'kinds (origin x container x selector specificity x importance, style attribute, presentational '
